@@ -12,6 +12,7 @@ import subprocess
 import sys
 import tempfile
 import textwrap
+import warnings
 
 from vcommon import Prop, REPO, VERIF
 import gen_c15 as G
@@ -118,6 +119,12 @@ def is_blank(s):
 
 def exprability(s):
     """Independent of pyflyby: can `s` be evaluated as an expression?  'yes' / 'no' / 'maybe'."""
+    with warnings.catch_warnings():
+        warnings.simplefilter("ignore")
+        return _exprability(s)
+
+
+def _exprability(s):
     try:
         ast.parse(s.strip(" \t"), mode="eval")
         return "yes"
@@ -172,7 +179,14 @@ class C15(Prop):
     id = "C15"
     driver = "C15"
     lean_modules = ["Pfb.C15.Props"]
-    theorems = []
+    theorems = ["Pfb.C15." + t for t in [
+        "C15_string_exact", "C15_string_noeval", "C15_after_dashdash", "C15_auto",
+        "C15_bind_agrees", "C15_binding_partial", "C15_binding", "C15_accepts_only_bindable", "C15_last_wins",
+        "C15_rejects_ambiguous", "C15_rejects_unknown", "C15_rejects_call",
+        "C15_D16_witness", "witness_call_binds", "witness_rejected", "witness_fixed",
+        "C15_global_opts_suffix", "C15_safe_sets_string",
+        "scan_items", "resolve_agree", "dget_dictOf", "evalExpr_user", "evalExpr_auto_raw_reason",
+    ]]
     anchors = [
         ("lib/python/pyflyby/_py.py", "_parse_auto_apply_args"),
         ("lib/python/pyflyby/_py.py", "UserExpr.__init__"),
@@ -184,13 +198,28 @@ class C15(Prop):
         ("lib/python/pyflyby/_util.py", "prefixes"),
         ("lib/python/pyflyby/_idents.py", "is_identifier"),
     ]
-    quick_cases = 4000
+    quick_cases = 10000
     thorough_cases = 150000
     quick_deadline_s = 60
     thorough_deadline_s = 600
-    rule = ""
-    trusted_base = []
-    assumptions = []
+    rule = ("generated signatures (positional, defaults, *args, keyword-only, **kwargs, names sharing prefixes, non-ASCII "
+            "names) built as real Python functions x command lines (structured: positionals, --k=v, --k v, -k v, -k=v, "
+            "`-`, trailing `-- ...`; 'wild' structured; unstructured token soup) x {string, eval, auto} x argument strings "
+            "(expression-like, shell-like, empty, blank, leading dashes, control characters) against "
+            "_parse_auto_apply_args with a tagging stub namespace; plus CPython-binder cases (inspect.Signature.bind vs "
+            "pyBind), _parse_global_opts cases, an exhaustive small scope (9 signatures x argv<=3 over 12 tokens) and "
+            "real `py` subprocesses; non-trivial = non-empty argv / call / option list, distinct by full input")
+    trusted_base = ["CPython: inspect.Signature.bind as the definition of 'binds as the equivalent Python call' "
+                    "(pyBind is validated against it by the 'bind' cases), str.isidentifier/keyword for non-ASCII names, "
+                    "the parser behind PythonBlock.parsable_as_expression (a parameter of the model: Env.parsable)",
+                    "modelled as parameters, universally quantified in the theorems: namespace.auto_eval (Env.outcome), "
+                    "is_identifier (Env.isIdent); str.lower modelled on ASCII letters only (global options)"]
+    assumptions = ["signatures as inspect.getfullargspec reports them: distinct parameter names, kwonlydefaults within "
+                   "kwonlyargs (WF); positional-only parameters are outside the property's quantifier",
+                   "C15_binding at full strength needs fixes/C15-D16.diff (exactFirst); for the tree as it stands "
+                   "C15_binding_partial assumes no option names a parameter that is a proper prefix of another (D16)",
+                   "`--name=` with an empty value is the `--name value` form (as coded); a later --args=... overrides "
+                   "--safe (last mode option wins)"]
 
     # -- generation ----------------------------------------------------------
     def gen_case(self, rng, i, tier):
@@ -203,7 +232,11 @@ class C15(Prop):
         mode = rng.choice(G.MODES)
         r = rng.random()
         case = dict(kind="parse", sig=sig, mode=mode, stdin=rng.choice(["", "IN", "1+1", "line1\nline2\n", "--x"]))
-        if r < 0.6:
+        if r < 0.3:
+            items = G.gen_items_valid(rng, sig)
+            case["items"] = items
+            case["argv"] = G.render(items)
+        elif r < 0.6:
             items = G.gen_items(rng, sig, wild=False)
             case["items"] = items
             case["argv"] = G.render(items)
@@ -342,6 +375,11 @@ class C15(Prop):
 
     # -- implementation ------------------------------------------------------
     def run_impl(self, case):
+        with warnings.catch_warnings():
+            warnings.simplefilter("ignore")     # SyntaxWarnings of generated argument strings
+            return self._run_impl(case)
+
+    def _run_impl(self, case):
         kind = case.get("kind", "parse")
         if kind == "parse":
             return self._run_parse(case)
@@ -563,7 +601,7 @@ class C15(Prop):
         exp = self._expected(case)
         if exp is None:
             return []
-        problems, want = exp
+        problems, optional, want = exp
         if err == "ambiguous" and "ambiguous" not in problems:
             ex = self._exact_prefix_names(case)
             if ex:
@@ -573,11 +611,13 @@ class C15(Prop):
             if "ok" in obs:
                 fails.append(dict(what="command line accepted although it must be rejected", reasons=sorted(problems),
                                   got=obs["ok"], **brief))
-            elif err not in problems:
+            elif err not in problems and err not in optional:
                 fails.append(dict(what="rejected for a reason that is not present", reasons=sorted(problems), err=err,
                                   msg=obs.get("msg"), **brief))
             return fails
         if "ok" not in obs:
+            if err in optional:
+                return []
             return [dict(what="valid command line rejected", err=err, msg=obs.get("msg"), **brief)]
         got = obs["call"]
         for k in sorted(set(want) | set(got)):
@@ -644,9 +684,9 @@ class C15(Prop):
             if literal or mode == "string":
                 return Exp([["raw", s]])
             if mode == "eval":
-                if is_blank(s) or s in unimportable or s in evalerr:
-                    return Exp([], err=True)
-                return Exp([["eval", s]])
+                # the statement says nothing about what eval mode does with a string that cannot be evaluated:
+                # rejecting is accepted, delivering anything but the evaluation is not
+                return Exp([["eval", s]], err=(is_blank(s) or s in unimportable or s in evalerr))
             if is_blank(s):
                 return Exp([["raw", s]])
             e = exprability(s)
@@ -655,7 +695,9 @@ class C15(Prop):
             if s in unimportable:
                 return Exp([["raw", s]])
             if s in evalerr:
-                return Exp([["raw", s]] if e == "maybe" else [], err=True)
+                # evaluation raised: the code rejects the call; falling back to the string would also satisfy
+                # "the value of evaluating it or, when that is impossible, the original string"
+                return Exp([["raw", s]], err=True)
             return Exp([["eval", s]] + ([["raw", s]] if e == "maybe" else []))
 
         pos, kw = [], {}
@@ -711,9 +753,10 @@ class C15(Prop):
         for a in sig["kwonly"]:
             if a not in kw and a not in sig["kwdefaults"]:
                 problems.add("missingRequiredKw")
+        optional = set()
         for e2 in pos + list(kw.values()):
             if e2.err:
-                problems.add("evalError")
+                optional.add("evalError")
         f, _ = build_function(sig)
         try:
             ba = inspect.signature(f).bind(*pos, **kw)
@@ -723,9 +766,9 @@ class C15(Prop):
             bind_msg = str(e)
         structural = problems & {"tooManyPos", "bothPosKw", "missingRequired", "missingRequiredKw"}
         if not any(p in ("ambiguous", "unknownOption") for p in problems) and bind_ok != (not structural):
-            return {"harness:inspect.bind disagrees with the oracle's problem list"}, None
+            return {"harness:inspect.bind disagrees with the oracle's problem list"}, optional, None
         if problems:
-            return problems, None
+            return problems, optional, None
         ba.apply_defaults()
 
         def one(v):
@@ -739,7 +782,7 @@ class C15(Prop):
             want["*"] = [one(v) for v in ba.arguments.get(sig["varargs"], ())]
         if sig["varkw"]:
             want["**"] = sorted([k, one(v)] for k, v in ba.arguments.get(sig["varkw"], {}).items())
-        return problems, want
+        return problems, optional, want
 
     # -- model ---------------------------------------------------------------
     _d16_fixed = None
